@@ -688,6 +688,15 @@ func (x *pexec) doParse(op *Op, wrapped bool) string {
 	}
 	if n < 0 || n > limit {
 		x.fail("C03", "n_out_of_range", "", "%s returned n=%d, allowed 1..min(BlockSize=%d, unparsed=%d)", name, n, x.bc.BlockSize, unparsed)
+		// a block that represents more bytes than are left of the input
+		// cannot expand to "exactly the bytes consumed": C01's clause as well
+		bl := int64(len(blk.Literals))
+		for _, s := range blk.Sequences {
+			bl += int64(s.MatchLen)
+		}
+		if bl > int64(unparsed) {
+			x.fail("C01", "expansion_exceeds_input", "", "%s returned a block that expands to %d bytes although only %d bytes fed are not yet covered by blocks", name, bl, unparsed)
+		}
 		x.abort("n out of range")
 	}
 	// --- accounting (C03)
